@@ -109,6 +109,11 @@ pub const SEEDS: &[(&str, &[&str])] = &[
     ("%m(%n()", &["", ")"]),
     ("%m(a ", &["", ")"]),
     ("x %lbl:", &["", ";"]),
+    // two labels in the middle of one statement (each receives a separator in the macro_sep build)
+    ("a %x:b %y:c ", &["", ";"]),
+    // a label directly followed by constructs that take a checkpoint of their own
+    ("%lbl:%verify(", &["", ")"]),
+    ("%lbl: %macro m(", &["", "); %mend;"]),
     ("%lbl: ", &["", ";"]),
     ("%if a %then %lbl:", &["", ";"]),
     ("* ", &["", ";"]),
